@@ -12,7 +12,7 @@ for d in seeded/$PROP-* seeded/own-$PROP-* seeded/neutral-$PROP-* $VK_EXTRA_SEED
   WT="/tmp/wt/st-$ID"; SC="/tmp/vkst-$ID"
   rm -rf "$WT" "$SC"; git -C /repo worktree prune
   git -C /repo worktree add --detach "$WT" HEAD -q || { echo "$ID: WORKTREE FAILED"; continue; }
-  if ! git -C "$WT" apply "$HERE/$d/patch.diff" 2>/dev/null; then echo "$ID: PATCH DOES NOT APPLY"; git -C /repo worktree remove --force "$WT"; continue; fi
+  if ! git -C "$WT" apply "$HERE/$d/patch.diff" 2>/dev/null; then echo "$ID: PATCH DOES NOT APPLY to the current tree (later repairs rewrote the same lines; recorded base: $(grep -o '"base_commit": *"[0-9a-f]*"' "$HERE/$d/meta.json" | grep -o '[0-9a-f]\{7,\}' || echo 'the fix commit in its name'))"; git -C /repo worktree remove --force "$WT"; continue; fi
   OUT="$(VK_NO_EVIDENCE=1 VK_REPO="$WT" PYTHONPATH="$WT" VK_SCRATCH="$SC" PYTHONDONTWRITEBYTECODE=1 "$HERE/.venv/bin/python" -m vk check "$PROP" --tier "$TIER" 2>&1)"; RC=$?
   V="$(echo "$OUT" | grep -c '^VIOLATION')"
   echo "$ID: rc=$RC violations=$V $(echo "$OUT" | grep -A1 '^VIOLATION' | grep 'sig=' | head -2 | sed 's/input=.*//' | tr '\n' ' ') | $(echo "$OUT" | tail -1 | cut -c1-140)"
